@@ -69,6 +69,10 @@ def prune(root: Node, copy: bool = True) -> Node:
                 for j, sum_child in enumerate(sum_children):
                     children_weights[sum_child] += node.weights[i] * child.weights[j]
             children, weights = zip(*children_weights.items())
+            if len(children) == 1:
+                # All the (merged) children coincide, hence the sum node is redundant
+                nodes_map[node.id] = children[0]
+                continue
             nodes_map[node.id].weights = np.array(weights, dtype=node.weights.dtype)
             nodes_map[node.id].children = children
         else:
